@@ -3,7 +3,7 @@
 import ast
 
 from ..absint import Interp, Obj, Opaque, Raised
-from ..astutil import call_name, call_attr, call_recv, calls_in, norm, walk_own
+from ..astutil import const_value, call_name, call_attr, call_recv, calls_in, norm, walk_own
 from ..cfg import build_cfg
 from ..rules import calling, fn_cfg, k1_before, k2_unreachable, need
 from ..selftest import Mutant
@@ -31,6 +31,9 @@ R8 (K7) every InterBranch implementation in branch.py and git/branch.py substitu
    `overwrite is True`, and no push/pull entry point lets a divergence check hang on the bare truth value of overwrite.
 R9 (fourth round) every ref-update callback (nested function taking the advertised refs) passes remote_divergence an old value taken from
    that parameter, not from the enclosing scope.
+R10 RemoteBranch.generate_revision_history allows divergence on the smart path only when last_rev is None; R11 every fetch_refs with an
+   overwrite flag reads it (one known finding, one tabled exception); R12 no function plants a tip into another branch object's cache
+   (known finding).
 Does not decide: that revno equals the length of the left-hand history for all DAGs (graph arithmetic).
 """
 ASSUMPTIONS = ["graph.heads() returns the heads of the given revisions (vcsgraph)"]
@@ -209,8 +212,51 @@ def run(ctx):
                     from_param = bool(exprs) and all(any(isinstance(n_, ast.Name) and n_.id == refs_param for n_ in ast.walk(e)) for e in exprs)
                     ctx.check("R9-divergence-against-advertised-refs", f"{rel_}:{outer_q}.{cb.name}", from_param, f"the old value given to remote_divergence comes from `{refs_param}`, the refs the server advertised in this conversation", construct=norm(c)[:90], message=f"{outer_q}.{cb.name} compares the new tip with `{norm(a0)}`, which is not taken from `{refs_param}` (the refs advertised by the server in this send-pack conversation) but from the enclosing scope — a ref listing cached earlier: when somebody else advanced the remote branch in between, the divergence is not seen and the remote tip is replaced without --overwrite")
     ctx.require(n_cb >= 4, f"only {n_cb} ref-update callbacks with a divergence test found (hand-confirmed: 4)")
+    # ---- R10: every generate_revision_history honours last_rev ------------------------------------------------------------
+    RMB = "breezy/bzr/remote.py"
+    fgr = repo.func(RMB, "RemoteBranch.generate_revision_history")
+    wgr = f"{RMB}:RemoteBranch.generate_revision_history"
+    dcalls = [c for c in calls_in(fgr) if call_attr(c) == "_set_last_revision_descendant"]
+    ctx.require(bool(dcalls), f"{wgr}: _set_last_revision_descendant(...) not found")
+    lr = [a.arg for a in fgr.args.args][2] if len(fgr.args.args) > 2 else "last_rev"
+    for c in dcalls:
+        kw = [k.value for k in c.keywords if k.arg == "allow_diverged"] + list(c.args[2:3])
+        honours = bool(kw) and (const_value(kw[0], 1) is False or any(isinstance(n_, ast.Name) and n_.id == lr for n_ in ast.walk(kw[0])))
+        ctx.check("R10-last-rev-honoured", wgr, honours, f"the smart path allows divergence only when no `{lr}` was given", construct=norm(c)[:110], message=f"RemoteBranch.generate_revision_history asks the server to set the tip with divergence allowed whatever `{lr}` is: a caller that passes the previous tip (the git -> bzr push does) gets no DivergedBranches over a smart server URL, the remote tip is replaced without --overwrite; the local branch refuses")
+    # ---- R11: fetch_refs implementations read the overwrite flag they are given -------------------------------------------
+    #: confirmed by reading: the local git -> local git branch layer moves heads through _update_tip, which judges divergence itself
+    OVERWRITE_ELSEWHERE = {"InterGitGitRepository.fetch_refs"}
+    n_fr = 0
+    for q_, f_ in repo.module("breezy/git/interrepo.py").functions().items():
+        if not q_.endswith(".fetch_refs") or "overwrite" not in [a.arg for a in f_.args.args + f_.args.kwonlyargs]:
+            continue
+        if any(isinstance(n_, ast.Raise) and "NotImplementedError" in norm(n_) for n_ in ast.walk(f_)) and len(f_.body) <= 2:
+            continue
+        n_fr += 1
+        reads = any(isinstance(n_, ast.Name) and n_.id == "overwrite" for st in f_.body for n_ in ast.walk(st))
+        if q_ in OVERWRITE_ELSEWHERE and not reads:
+            ctx.info("R11-overwrite-flag-read", f"breezy/git/interrepo.py:{q_}", "tabled exception: divergence is judged by the branch layer (_update_tip)")
+            continue
+        if reads:
+            ctx.check("R11-overwrite-flag-read", f"breezy/git/interrepo.py:{q_}", True, f"{q_} reads its overwrite flag")
+        else:
+            ctx.violation("R11-overwrite-flag-read", f"breezy/git/interrepo.py:{q_}", "parameter `overwrite` is never read", f"{q_} takes an overwrite flag and never looks at it, and nothing in it compares the target's old ref with the new one: pushing (or pulling, or dpushing) diverged bzr history into a local git branch replaces the git tip without --overwrite, and a target that is ahead is moved backwards")
+    ctx.require(n_fr >= 3, f"only {n_fr} fetch_refs implementations with an overwrite flag found")
+    # ---- R12: nobody plants a tip in a branch object's cache from outside ----------------------------------------------------
+    planted = []
+    for q_, f_ in repo.module(RMB).functions().items():
+        for a in walk_own(f_):
+            if isinstance(a, ast.Assign) and any(isinstance(t, ast.Attribute) and t.attr == "_last_revision_info_cache" and norm(t.value) not in ("self", "self._real_branch") for t in a.targets) and norm(a.value) != "None":
+                planted.append((q_, a))
+    if planted:
+        q_, a = planted[0]
+        ctx.violation("R12-tip-cache-not-planted", f"{RMB}:{q_}", norm(a)[:80], f"{q_} writes a tip into the cache of a branch object that is not locked ({norm(a)[:60]}): lock_write() does not drop it, so a push through the object returned by create_branch() believes the remote branch is still empty and replaces whatever another client pushed meanwhile, without --overwrite")
+    else:
+        ctx.check("R12-tip-cache-not-planted", RMB, True, "the tip cache of a RemoteBranch is written only by the branch's own methods")
+
 
 MUTANTS = [
+    Mutant("remote generate_revision_history always allows divergence (fix 30e5099 reverted)", "breezy/bzr/remote.py", "                        allow_diverged=last_rev is None,\n", "                        allow_diverged=True,\n", expect="R10-last-rev-honoured"),
     Mutant("remote git push judges divergence by the cached ref", "breezy/git/remote.py", "            old_sha = remote_refs.get(actual_refname)\n            if not overwrite and remote_divergence(", "            if not overwrite and remote_divergence(", expect="R9-divergence-against-advertised-refs"),
     Mutant("git pull expands any non-set overwrite to the full aspect set", "breezy/git/branch.py", "        if local:\n            raise errors.LocalRequiresBoundBranch()\n        if overwrite is True:\n            overwrite = {\"history\", \"tags\"}\n        elif not overwrite:\n            overwrite = set()\n", "        if local:\n            raise errors.LocalRequiresBoundBranch()\n        if not isinstance(overwrite, (set, frozenset)):\n            overwrite = {\"history\", \"tags\"} if overwrite else set()\n", expect="R8-overwrite-aspects-uniform"),
     Mutant("remote git push decides divergence on the truth value of overwrite", "breezy/git/branch.py", "            if \"history\" not in overwrite and remote_divergence(", "            if not overwrite and remote_divergence(", expect="R8-overwrite-aspects-uniform"),
